@@ -249,6 +249,69 @@ def explore_config(part, h, w, cfg, seeds_from_all_valid, state_cap):
         restore_source(seg, saved)
 
 
+def long_walk(part, h, w, cfg, steps, stride):
+    """Deterministic long history on a board too large for BFS: starting from initial(), repeatedly apply one of the
+    proposed updates (picked by a fixed stride), checking the invariant and immutability at every step."""
+    from cspuz.generator import segmentation as seg
+
+    saved = save_source(seg)
+    case = {"board": [h, w], "config": list(cfg), "walk_stride": stride}
+    try:
+        b = make_builder(h, w, cfg)
+        set_source(seg, Scripted(stride))
+        try:
+            cur = b.initial()
+        except DeadEnd:
+            part.count("initial_dead_ends_not_judged")
+            return
+        except Exception as e:
+            part.violation("walk:initial-raises-" + type(e).__name__, case, {"exception": repr(e)[:200]})
+            return
+        why = invariant(cur, h, w, cfg)
+        if why:
+            part.violation("walk:initial:" + why, case, {"value": cur})
+            return
+        trail = []
+        for step in range(steps):
+            set_source(seg, Scripted(step * 31 + stride))
+            snap = copy.deepcopy(cur)
+            try:
+                cands = b.candidates(cur)
+            except Exception as e:
+                part.violation("walk:candidates-raises-" + type(e).__name__, dict(case, step=step), {"exception": repr(e)[:200]})
+                return
+            part.count("candidate_calls")
+            if cur != snap:
+                part.violation("walk:candidates-mutated-its-argument", dict(case, step=step), {})
+                return
+            if not cands:
+                break
+            # judge every proposed update of this state, follow one of them
+            nxt_cur = None
+            for k, upd in enumerate(cands):
+                nxt = b.copy_with_update(cur, upd)
+                part.count("transitions")
+                if cur != snap:
+                    part.violation("walk:update-mutated-the-value-it-was-applied-to", dict(case, step=step), {})
+                    return
+                why = invariant(nxt, h, w, cfg)
+                if why:
+                    part.violation("walk:update:" + why, dict(case, step=step, state=snap, update=copy.deepcopy(upd)), {"result": nxt})
+                    return
+                if k == (step * stride + 3) % len(cands):
+                    nxt_cur = nxt
+            trail.append((cur, snap))
+            cur = nxt_cur
+            part.add("states", (h, w, cfg, canon(cur)))
+        for obj, snap in trail:
+            if obj != snap:
+                part.violation("walk:earlier-value-mutated-later", case, {})
+                break
+        part.maxi("walk_length", len(trail))
+    finally:
+        restore_source(seg, saved)
+
+
 def configs(h, w, tier):
     n = h * w
     menu = [None, 1, 2, 3, n]
@@ -263,6 +326,10 @@ def configs(h, w, tier):
 
 
 def worker(shard, part):
+    if shard[0] == "walk":
+        _, h, w, cfg, steps, stride = shard
+        long_walk(part, h, w, cfg, steps, stride)
+        return
     h, w, cfgs, allvalid, cap = shard
     for cfg in cfgs:
         explore_config(part, h, w, cfg, allvalid, cap)
@@ -281,6 +348,11 @@ def main(tier, seed, only=None):
         step = 8 if h * w >= 6 else 40
         for lo in range(0, len(cfgs), step):
             shards.append((h, w, cfgs[lo : lo + step], tier != "quick" or h * w <= 4, 20000))
+    walk_cfgs = [(None, None, None, None), (3, 8, 2, 6), (None, None, 1, 4), (4, 4, None, None), (2, None, 3, None), (None, 6, None, 9)]
+    for (h, w) in ([(5, 5), (4, 8), (10, 10)] if tier == "quick" else [(5, 5), (4, 8), (8, 4), (10, 10), (17, 17), (1, 40), (40, 1)]):
+        for cfg in walk_cfgs:
+            for stride in ((1, 5) if tier == "quick" else (1, 5, 11)):
+                shards.append(("walk", h, w, cfg, 150 if tier == "quick" else 400, stride))
     run = harness.Run(
         PID, tier, seed, "model_checking",
         "boards with h*w <= %d (all shapes incl. 1xN); configurations: all (min_blocks, max_blocks, min_size, max_size) over {None,1,2,3,h*w} "
@@ -288,7 +360,8 @@ def main(tier, seed, only=None):
         "choice tape (<= 6 choice points, <= 300 executions) and%s from every valid partition given as initial_blocks; BFS to the fixpoint "
         "over updates proposed by the real candidates(), the two seeds of every split_block call swept over all n^2 pairs, every state "
         "expanded in two presentations (canonical, reversed).  Invariant per state: partition, connected blocks, count and sizes in bounds; "
-        "per transition: source value and earlier results unchanged." % (maxcells, " (boards <= 4 cells)" if tier == "quick" else ""),
+        "per transition: source value and earlier results unchanged.  Scale family: deterministic walks of 150 (thorough 400) steps on 5x5, 4x8, 10x10 "
+        "(thorough 17x17, 1x40) boards under 6 configurations, judging every proposed update of every visited state." % (maxcells, " (boards <= 4 cells)" if tier == "quick" else ""),
     )
     run.assumptions = [
         "canonical state = sorted tuple of sorted blocks; sound because the set of proposed successor partitions is independent of block / cell "
